@@ -266,35 +266,43 @@ def explore_project(args):
     return st
 
 
-def fresh_process_runs(st: Stats, pname, seeds, reps):
-    """validation: real `python -m ford` under different hash seeds must agree byte for byte."""
+def fresh_process_runs(st: Stats, pname, runs):
+    """validation with the real front end: `python -m ford` in fresh processes.  runs = [(PYTHONHASHSEED, parallel, graph_dir?)];
+    the documentation tree (and the graph directory) must agree byte for byte between all of them."""
     root = core.tmp_root() / f"c12-fresh-{os.getpid()}"
     shutil.rmtree(root, ignore_errors=True)
     fordrun.write_tree(root, PROJECTS[pname])
-    (root / "proj.md").write_text("project: fresh\npreprocess: false\ngraph: true\nsearch: false\nparallel: 0\ncreation_date: DATE\nyear: 2000\n\nFront page.\n")
     snaps = {}
-    for seed in seeds:
-        for rep in range(reps):
-            env = dict(os.environ, PYTHONHASHSEED=str(seed), PYTHONPATH=str(core.REPO), FORD_DEBUGGING="1")
-            out = root / "doc"
-            shutil.rmtree(out, ignore_errors=True)
-            p = subprocess.run([sys.executable, "-m", "ford", "proj.md"], cwd=root, env=env, capture_output=True, text=True)
-            st.evaluations += 1
-            st.extra["fresh_process_runs"] = st.extra.get("fresh_process_runs", 0) + 1
-            if p.returncode != 0:
-                st.violation("ford-failed", f"{pname}/fresh-process", dict(project=pname, options="fresh", stale="", deviation_kinds="hashseed", sites=""),
-                             dict(project=pname, seed=seed), p.stderr[-300:], "exit 0")
-                continue
-            snaps[(seed, rep)] = snapshot(out)
-    keys = sorted(snaps)
-    if keys:
-        b = snaps[keys[0]]
+    for (seed, par, gdir) in runs:
+        (root / "proj.md").write_text("project: fresh\npreprocess: false\ngraph: true\nsearch: false\n" + f"parallel: {par}\n" + ("graph_dir: ./graphs\n" if gdir else "")
+                                      + "creation_date: DATE\nyear: 2000\n\n" + FRONT)
+        env = dict(os.environ, PYTHONHASHSEED=str(seed), PYTHONPATH=str(core.REPO), FORD_DEBUGGING="1")
+        out = root / "doc"
+        shutil.rmtree(out, ignore_errors=True)
+        shutil.rmtree(root / "graphs", ignore_errors=True)
+        p = subprocess.run([sys.executable, "-m", "ford", "proj.md"], cwd=root, env=env, capture_output=True, text=True)
+        st.evaluations += 1
+        st.extra["fresh_process_runs"] = st.extra.get("fresh_process_runs", 0) + 1
+        feats = dict(project=pname, options="fresh", stale="", deviation_kinds="process", sites="", parallel=par, graph_dir=bool(gdir))
+        if p.returncode != 0:
+            st.violation("ford-failed", f"{pname}/fresh-process", feats, dict(project=pname, seed=seed, parallel=par, graph_dir=bool(gdir)),
+                         (p.stderr or p.stdout)[-300:], "exit 0 whatever the number of worker processes")
+            continue
+        snap = snapshot(out, root)
+        if gdir:
+            for k, v in snapshot(root / "graphs", root).items():
+                snap["graph_dir/" + k] = v
+        snaps.setdefault(bool(gdir), {})[(seed, par)] = snap
+    for gdir, group in snaps.items():
+        keys = sorted(group)
+        b = group[keys[0]]
         for k in keys[1:]:
-            diff = sorted(x for x in set(b) | set(snaps[k]) if b.get(x) != snaps[k].get(x))
+            diff = sorted(x for x in set(b) | set(group[k]) if b.get(x) != group[k].get(x))
             if diff:
-                st.violation("output-depends-on-hash-seed", f"{pname}/fresh-process",
-                             dict(project=pname, options="fresh", stale="", deviation_kinds="hashseed", sites="", differing=classify(diff[0])),
-                             dict(project=pname, seeds=[list(keys[0]), list(k)]), diff[:6], "byte-identical output")
+                st.violation("output-depends-on-hash-seed-or-workers", f"{pname}/fresh-process",
+                             dict(project=pname, options="fresh", stale="", deviation_kinds="process", sites="", differing=classify(diff[0]),
+                                  seed_differs=keys[0][0] != k[0], parallel_differs=keys[0][1] != k[1], graph_dir=gdir),
+                             dict(project=pname, runs=[list(keys[0]), list(k)], graph_dir=gdir), diff[:6], "byte-identical output")
                 break
     shutil.rmtree(root, ignore_errors=True)
 
@@ -387,16 +395,16 @@ def main(tier, replay_path=None):
                              dict(project=pname, stale=stale), diff[:6], "byte-identical output")
     if tier == "thorough":
         for pname in PROJECTS:
-            fresh_process_runs(st, pname, seeds=(0, 1, 2, 3, 4, 5, 6, 7), reps=2)
+            fresh_process_runs(st, pname, [(seed, par, gd) for seed in range(8) for par in (0, 2, 8) for gd in (False, True)] + [(0, 0, False), (0, 2, True)])
     else:
-        fresh_process_runs(st, "P1", seeds=(0, 1, 2), reps=1)
+        fresh_process_runs(st, "P1", [(0, 0, False), (1, 2, False), (2, 8, False), (0, 0, True), (1, 2, True), (2, 8, True)])
     total.merge(st)
     ev = total.extra.get("set_iteration_events_default_run", [])
     return core.finish(
         PROP, tier, "model_checking", total, t0,
         rule=(f"2 multi-file projects x option sets x (all permutations of the file order + every run with <= {bound} deviating set-iteration events; "
               "deviation alternatives: reversed / first two swapped / rotated) + stale-output histories; oracle = byte equality with the default schedule. "
-              f"set-iteration events per default run: {ev}. traces_validated_against_impl counts in-process executions; fresh_process_runs are real `python -m ford` runs under different PYTHONHASHSEED"),
+              f"set-iteration events per default run: {ev}. traces_validated_against_impl counts in-process executions; fresh_process_runs are real `python -m ford` runs under PYTHONHASHSEED x parallel in {0, 2, 8} x graph_dir set / unset"),
         assumptions=[
             "the set shim covers `set(...)` calls in ford.sourceform/graphs/fortran_project/output and toposort; set literals/comprehensions exist only in find_all_files, which is wrapped",
             "creation_date and year are pinned; print_creation_date stays off",
